@@ -206,3 +206,5 @@ def _round8(ctx):
     from rules import arms as A
     with ctx.rule('R04.12', 'requests are taken from the channel queues again once the backlog is at or below the low-water mark (shared with C18)', floor=1) as r:
         A.include(ctx, r, 'c18', 'R18.2', pick=('edges',))
+    with ctx.rule('R04.13', "a reply and a close error for the same channel both fit its reply queue: the I/O thread never fails a correct answer for lack of room (shared with C05)", floor=1) as r:
+        A.include(ctx, r, 'c05', 'R05.3', pick=('slot/handle-pairing',))
